@@ -533,6 +533,19 @@ package block
 //@                       && g.arg1 == m.config.Node.BlockTime.Duration && blockTimer.resetTo == g.res0
 //@   loop 1 invariant [one-case] recvCount("txNotifyCh") + recvCount("blockTimer.C") <= 1 && pb.count <= 1
 
+
+// AggregationLoop: after the start-up delay exactly one of the two production loops runs, chosen by
+// the configuration, on a fresh armed block timer; an error of that loop is reported on errCh.
+//@ func (m *Manager) AggregationLoop(ctx, errCh)
+//@   property C17
+//@   requires [wiring] m.store != nil && m.logger != nil
+//@   observe lz := call lazyAggregationLoop
+//@   observe nm := call normalAggregationLoop
+//@   modifies m.txsAvailable, heap "model:Timer.resetTo", heap "model:Timer.armed"
+//@   ensures [one-loop] lz.count + nm.count <= 1
+//@   ensures [mode] (lz ==> m.config.Node.LazyMode) && (nm ==> !m.config.Node.LazyMode)
+//@   ensures [error-reported] (lz && lz.res0 != nil) || (nm && nm.res0 != nil) ==> sendCount("errCh") == 1
+
 //@ func (m *Manager) NotifyNewTransactions()
 //@   property C17
 //@   ensures [non-blocking] sendCount("txNotifyCh") <= 1
